@@ -84,6 +84,47 @@ impl<const N: usize> Asset for TN<N> {
     }
 }
 
+/// a loader that reports undecodable content as a boxed `io::Error` (as stream decoders do): still a DECODING error
+pub(crate) struct LIo;
+impl<T: Mk> loader::Loader<T> for LIo {
+    fn load(content: Cow<[u8]>, _ext: &str) -> Result<T, BoxedError> {
+        if content.len() == 1 {
+            Ok(T::mk(content[0]))
+        } else {
+            Err(Box::new(io::Error::from(io::ErrorKind::InvalidData)))
+        }
+    }
+}
+pub(crate) struct TI(pub u8);
+impl Mk for TI {
+    fn mk(b: u8) -> Self {
+        TI(b)
+    }
+    fn val(&self) -> u8 {
+        self.0
+    }
+}
+static mut TI_SAW_CONVERSION: bool = false;
+impl Asset for TI {
+    const EXTENSIONS: &'static [&'static str] = &["0"];
+    type Loader = LIo;
+    fn default_value(_id: &SharedString, error: BoxedError) -> Result<Self, BoxedError> {
+        Err(error)
+    }
+}
+/// whatever Rust type the loader's error has, a loader failure is a decoding (Conversion) error for the precedence rule
+fn loader_io_error_is_a_decoding_error() {
+    let s = Src3 { o: [O::Bad, O::Good, O::Good], reads: Cell::new(0), order_ok: Cell::new(true), variant: 0 };
+    let id: SharedString = "k".into();
+    unsafe { LAST_CLASS = 0 };
+    let r = load_from_source::<TI>(&s, &id);
+    match r {
+        Ok(_) => assert!(false, "undecodable content must not load"),
+        Err(e) => std::mem::forget(e),
+    }
+    assert!(unsafe { LAST_CLASS } == 3, "C03 a loader failure is a decoding error (highest precedence) whatever the Rust type of the loader's error");
+}
+
 /// C03.K1 — load_from_source against the property text, for an extension list of length N
 fn lfs<const N: usize>(variant: u8) {
     let o = [any_o(), any_o(), any_o()];
@@ -145,6 +186,7 @@ instances! {
     c03_k1_lfs_len1 => lfs::<1>(0);
     c03_k1_lfs_len1_buffer => lfs::<1>(1);
     c03_k1_lfs_len1_owned => lfs::<1>(2);
+    c03_k1_lfs_loader_io_error => loader_io_error_is_a_decoding_error();
 }
 instances! {
     c03_k1t_lfs_len2 => lfs::<2>(0);
